@@ -1298,7 +1298,7 @@ class _HttpProxy:
         and defaults to the empty schema.
         """
         state_bytes, call_state_bytes = _decode_resume_token(token)
-        return HttpStreamSession(
+        session = HttpStreamSession(
             client=self._client,
             url_prefix=self._url_prefix,
             method=method_name,
@@ -1314,6 +1314,11 @@ class _HttpProxy:
             retry_config=self._retry_config,
             compression_level=self._compression_level,
         )
+        # Same hand-over as for a session created by /init: without the proxy's
+        # capability snapshot the resumed session sends its continuations
+        # zstd-compressed and a server that only speaks gzip refuses them.
+        session._capabilities = self._capabilities
+        return session
 
     def __getattr__(self, name: str) -> Any:
         """Resolve RPC method names to callable proxies, caching on first access.
